@@ -51,6 +51,11 @@ CHECKS = {
             "The sequence of Dispatch arguments (copied at call time) of input.Plain must equal split(stream) for every single cut, every pair of cuts, 1-byte reads, (n>0, EOF), (n>0, timeout) on streams <= 48 B, for random segmentations of streams up to 300 KB with lines at the 65536-byte limit, over the real Listener with NODELAY paced writes and stalled writers, for UDP datagrams of 0-200 lines and for AMQP bodies through the real consumeAMQP loop (mock connector).",
             "Limit read as line length including its terminator <= 65536 (AMQP 4096); longer lines are measured, not judged; loopback only; a dropped UDP datagram is inconclusive.",
             "DESIGN.md §4 C12"),
+    "C13": ("exploration",
+            "runtime monitoring: differential oracle - CPython-produced pickle frames (protocols 0-4, plus a transcription of the Python 2.7 pickler) through the real input.Pickle handler vs the equivalent text through input.Plain; segmentation enumeration; invalid-item accounting; malformed-frame and concurrent-connection monitor; under -race",
+            "Connections of 1-20 frames x 0-200 items (tuples/lists, unicode/byte names, int/negative/>2^31/float/str fields, repeated objects, 18 broken shapes) are fed whole, byte by byte, with every single cut when small, and randomly segmented; dispatched lines must equal the plain-text path in order (name bytes, value to 6 decimals, integer timestamp), IncNumInvalid must equal the number of broken items, 10 kinds of malformed frame must end the call with an error while a concurrent healthy connection is unaffected. Six dependency findings are listed known.",
+            "CPython 3.11 is the reference encoder; names carry no whitespace; the og-rek decoder pinned in go.mod is outside this repository (known findings).",
+            "DESIGN.md §4 C13"),
     "C14": ("exploration",
             "runtime monitoring of the real relay binary (-race) as a child process: exit status + output scan + liveness probe after every hostile batch; every batch logged before it is sent",
             "The real binary is started on generated TOML configurations (documented options with boundary values); once listening it receives batches of hostile bytes on the plain TCP, UDP and pickle ports, boundary / mutated / random admin commands on the TCP admin port and HTTP admin DELETEs, each followed by valid traffic exercising what was built and a `view` probe; any exit, Go panic or fatal error after the listeners are up (or a Go panic at start-up) is a violation whose witness is the configuration and the last batches. AMQP bodies go through the real consume loop in an in-process child. A universal negative: the evidence lists what was tried.",
@@ -61,6 +66,11 @@ CHECKS = {
             "For generated destination sets of 2-12 (host, instance) pairs, in every listing order up to 4 destinations and several above, and along add/remove sequences, every sampled name (incl. names on tied 16-bit positions, on entry boundaries, on wrap-around) was handed to exactly one destination, the one carbon 0.9's ring picks; ownership did not depend on listing order; only keys landing on the added destination, or owned by the removed one, moved. Sampled, not exhaustive.",
             "The Go reference ring is trusted as cross-checked each run against a CPython 3 transcription with emulated Python 2 None ordering; hosts are 127.x literals; destinations are permanently disconnected (spool=false) so hand-off counters are the observation; a white-box accessor adds volume but the counter path is verdict-bearing on its own.",
             "DESIGN.md §4 C15"),
+    "C16": ("exploration",
+            "runtime monitoring: CPython pickle.loads of bytes from a real pickle-mode destination and from Pickle(); model-generated storage-schemas files with MetricData compared white-box (parseMetric + msgp round trip) and black-box (real grafanaNet route to a snappy/msgp-decoding httptest server); bad_pickle counter identity",
+            "Every float spelling and timestamp 0..2^32-1 must decode in CPython to the same name bytes, int timestamp and float64 bit pattern; unrepresentable lines must emit nothing and be counted bad_pickle. For generated rule lists (anchored, $-anchored, unanchored, tag patterns, priorities, old/new retention syntax) Name, sorted Tags, Value, Time, OrgId and Interval must match the rule model on parseMetric output, on the msgp bytes handed to sarama, and in real grafanaNet POST bodies.",
+            "Kafka is decided at the parseMetric + MarshalMsg boundary only (no broker here); rule matching in the harness uses Go regexp on patterns it generated itself.",
+            "DESIGN.md §4 C16"),
     "C18": ("exploration",
             "runtime monitoring: snapshot-immutability invariant at white-box accessor, forced interleavings via tag-guarded after-load hooks with exact delivery counts, free-running dispatch x admin ops under the race detector (reports scoped to mutator-vs-dispatch), sequential model of the table view",
             "A: slices loaded from the table/route snapshot are compared element-wise after every delete (all list lengths 1..6 x indexes, five list kinds, add/delete histories). B: a dispatcher is held right after loading the snapshot while the delete happens, then released: every entry that exists before and after must see the line exactly once (capture routes, non-idempotent rewriters, counting aggregators, real destinations, real route deleted); a dispatcher that never returns is confirmed with two stack samples. C: 8 dispatchers x random admin operations: stable routes/destinations must get every line exactly once; race reports with one side in a mutator and the other in a dispatch path count. E: Table.Snapshot() vs model after each operation of random histories (index >= len rejected, unknown route no-op).",
